@@ -768,7 +768,10 @@ def entries_specs(draw):
             'rho': [draw(RHO) for _ in range(size)], 'sgn': [draw(st.sampled_from([1, -1])) for _ in range(size)],
             'hit': draw(st.integers(0, n - 1)),
             'mode': draw(st.sampled_from(ENTRY_MODES)), 'cred': draw(st.sampled_from([1, 1, 1, 0.5, 0.8, 0])),
-            'route': draw(st.sampled_from(['option', 'comparer'])), 'tol': draw(TOL), 'seed': draw(SEED)}
+            'route': draw(st.sampled_from(['option', 'comparer'])), 'tol': draw(TOL), 'seed': draw(SEED),
+            # the comparer OBJECT is first used by another grader with a very different tolerance (an author may put one
+            # comparer into several graders, or install it with set_default_comparer)
+            'shared': draw(st.sampled_from([None, 'loose', 'tight', 'loose-pct']))}
 
 
 def nest(flat, shape):
@@ -839,8 +842,16 @@ def judge_entries(spec, rec):
     if spec['route'] == 'option':
         g = MatrixGrader(answers={'expect': expect, 'grade_decimal': cred}, entry_partial_credit=mode, **kw)
     else:
-        g = MatrixGrader(answers={'expect': {'comparer': MatrixEntryComparer(entry_partial_credit=mode),
-                                             'comparer_params': [expect]}, 'grade_decimal': cred}, **kw)
+        cmp_obj = MatrixEntryComparer(entry_partial_credit=mode)
+        if spec.get('shared'):
+            kw2 = dict(kw, tolerance={'loose': 1e6, 'tight': 0, 'loose-pct': '5000%'}[spec['shared']])
+            if scripted:
+                kw2['sample_from'] = {'x': Scripted(values=xs)}
+            other = MatrixGrader(answers={'expect': {'comparer': cmp_obj, 'comparer_params': [expect]}}, **kw2)
+            run(other, student, spec['seed'], rec)
+            run(other, expect, spec['seed'], rec)
+            rec.cls('entries/comparer-object-shared-with-another-grader')
+        g = MatrixGrader(answers={'expect': {'comparer': cmp_obj, 'comparer_params': [expect]}, 'grade_decimal': cred}, **kw)
     out = run(g, student, spec['seed'], rec)
     frac = sum(matched) / float(size)
     if frac == 1:
